@@ -154,11 +154,19 @@ def _perm(ps, ns, env):
     return None
 
 
+class Env(dict):
+    """bindings of a successful match; truthy even when no metavariable was bound"""
+
+    def __bool__(self):
+        return True
+
+
 def pmatch(pat, node, env=None):
-    """env (dict '$x' -> identifier, '$$x' -> ast expression) or None"""
+    """Env ('$x' -> identifier, '$$x' -> ast expression) or None"""
     if isinstance(pat, str):
         pat = Pattern(pat)
-    return _m(pat.node, node, dict(env or {}))
+    e = _m(pat.node, node, dict(env or {}))
+    return None if e is None else Env(e)
 
 
 def find(pat, root, env=None):
@@ -170,7 +178,7 @@ def find(pat, root, env=None):
             continue
         e = _m(pat.node, n, dict(env or {}))
         if e is not None:
-            out.append((n, e))
+            out.append((n, Env(e)))
     return out
 
 
